@@ -8,7 +8,7 @@ PLANS = {
     # "at uniformly spaced instants 1/ratio input samples apart": the spacing predicates of the contract are
     # evaluated on the same traces (the one-hot/polynomial twins take the instants from the probe instance, so
     # a frame evaluated at a wrong instant is invisible to them - seeded change C08c)
-    "C08": {"twin": ["TwinPoly", "TwinNear"], "model_inv": ["C08_Cardinal"],
+    "C08": {"twin": ["TwinPoly", "TwinNear", "TwinNearest"], "model_inv": ["C08_Cardinal"],
             "contract": ["C06_Increasing", "C06_StepInRange"]},
     "C15": {"twin": ["KernelEq", "TwinCtl", "TwinNear"],
             "model_inv": ["C15_LoopPairs", "C15_ResultExact", "C15_BranchDelay"]},
@@ -64,6 +64,25 @@ def c08_scripts(rng, tier):
                     for i in range(1 + len(hots)):
                         ops.append({"op": "process", "id": i})
                 S.append(ops)
+    # Nearest against Linear: the Nearest resampler picks the sample at or just before the instant at which its
+    # Linear twin evaluates (TwinNearest); ratios whose chunks end exactly on input frames included
+    for _ in range({"quick": 40, "thorough": 400}[tier]):
+        for kind in ("FastFixedIn", "FastFixedOut"):
+            r = rng.choice(gen.RATIOS + [Fraction(6), Fraction(20, 3), Fraction(9, 8), Fraction(25, 7), Fraction(5, 9),
+                                         Fraction(6), Fraction(9, 8)])
+            chunk = rng.choice([1, 2, 7, 16, 48, 100, 480, 333])
+            base = {"op": "new", "kind": kind, "T": 64, "ch": 1, "r": gen.rj(r), "maxrel": gen.rj(Fraction(2)),
+                    "chunk": chunk, "seed": 3, "signal": "index", "taus_cap": 100000}
+            a = dict(base, degree="Linear", id=0)
+            b = dict(base, degree="Nearest", id=1)
+            ops = [a, b, {"op": "note", "twin": "nearest", "a": 0, "b": 1}]
+            per_out = max(1.0, chunk * float(r)) if kind == "FastFixedIn" else chunk
+            for _c in range(int(min(300, 1500 / per_out + 4))):
+                ops += [{"op": "process", "id": 0}, {"op": "process", "id": 1}]
+                if rng.random() < 0.05:
+                    x = gen.rj(r * rng.choice([Fraction(1, 2), Fraction(3, 2), Fraction(1), Fraction(2)]))
+                    ops += [{"op": "set_ratio", "id": i, "x": x, "ramp": False, "rel": False} for i in (0, 1)]
+            S.append(ops)
     # numeric guard (TwinNear): polynomials of admissible degree are reproduced to rounding, at arbitrary
     # ratios and chunkings, f32 and f64. Instance 0 (index signal) gives the instants, instance 1 is fed
     # p(n); the driver measures |out - p(instant)| in units of eps*max|p| (measured on the unchanged
